@@ -238,7 +238,8 @@ class VolumeMesh(Mesh):
             
             self._adjC2E : dict = None
             self._adjE2C : dict = None
-        
+            self._adjE2F : dict = None
+
         def clear(self):
             super().clear()
             self._adjC2C : Attribute = None
